@@ -143,6 +143,14 @@ class _Gen:
         r = self.r
         i = len(self.nodes) + 1
         roll = r.random()
+        if self.ctxs_with():
+            special = r.random()
+            if special < 0.04 and self.borrow_chain():
+                return
+            if special < 0.09 and self.ported_fanout():
+                return
+            if special < 0.12 and self.nested_defer_loop():
+                return
         if roll < 0.08 or not self.ctxs_with():
             n = self.node("source_iter([%d])" % i, 0)
             self.give(0, n)
@@ -214,8 +222,8 @@ class _Gen:
             if r.random() < 0.5:
                 self.give(c, n)
             return
-        if roll < 0.68 and self.targets:
-            t, tc, mode = r.choice(self.targets)
+        if roll < 0.68 and [x for x in self.targets if x[2] != "chain"]:
+            t, tc, mode = r.choice([x for x in self.targets if x[2] != "chain"])
             rs = self.readers.setdefault(t, [])
             a = self.take(c)
             if mode == "grouped":
@@ -261,6 +269,100 @@ class _Gen:
         n = self.node(text, c)
         self.link(a, n)
         self.give(c, n)
+
+    # ---- shapes the seeded-bug campaign showed to matter --------------------------------------
+    def borrow_chain(self):
+        """A handoff referenced with 3-4 access groups by a pipeline of borrowers; the group numbers are a random
+        permutation along the pipe, so a later-group borrower often feeds an earlier-group one (access-order
+        cycle, must be rejected) and sometimes the order is consistent (must be accepted and ordered)."""
+        r = self.r
+        c = r.choice(self.ctxs_with())
+        if len(self.avail[c]) < 2:
+            return False
+        a = self.take(c)
+        t = self.node(r.choice(["singleton()", "optional()", "handoff()"]), c)
+        self.link(a, t)
+        self.targets.append((t, c, "chain"))
+        k = r.choice([3, 3, 4])
+        groups = list(range(k))
+        if r.random() < 0.7:
+            r.shuffle(groups)
+        b = self.take(c)
+        prev = b
+        for g in groups:
+            i = len(self.nodes) + 1
+            mut = "mut " if r.random() < 0.3 else ""
+            n = self.node("map(|x| (x, %d, #{%d} %sn%d))" % (i, g, mut, t), c)
+            self.link(prev, n)
+            prev = (n, None)
+        self.give(c, prev[0])
+        return True
+
+    def ported_fanout(self):
+        """Labelled output ports (partition / demux_enum / unzip()[i] / tee()[n]) immediately upstream of a unary
+        union/tee or of a chain of two of them (the rewrite must carry the port label through)."""
+        r = self.r
+        c = r.choice(self.ctxs_with())
+        a = self.take(c)
+        i = len(self.nodes) + 1
+        kind = r.choice(["unzip", "tee", "partition-int", "partition-named", "demux"])
+        if kind == "unzip":
+            text, ports = "unzip()", ["0", "1"]
+        elif kind == "tee":
+            text, ports = "tee()", [str(x) for x in range(r.choice([2, 3]))]
+        elif kind == "partition-int":
+            k = r.choice([2, 3])
+            text, ports = "partition(|v: &usize, len| (*v + %d) %% len)" % i, [str(x) for x in range(k)]
+        elif kind == "partition-named":
+            text, ports = "partition(|v: &usize, [evens, odds]| if *v %% 2 == %d { evens } else { odds })" % (i % 2), ["evens", "odds"]
+        else:
+            text, ports = "demux_enum::<Shape%d>()" % i, ["Square", "Circle"]
+        f = self.node(text, c)
+        self.link(a, f)
+        for port in ports:
+            roll = r.random()
+            prev = (f, port)
+            for _ in range(0 if roll < 0.3 else 1 if roll < 0.65 else 2):
+                n = self.node(r.choice(["union()", "tee()"]), c)
+                self.link(prev, n)
+                prev = (n, None)
+            if prev[0] == f:
+                self.give(c, f, port)
+            else:
+                self.give(c, prev[0])
+        return True
+
+    def nested_defer_loop(self):
+        """A nested loop with a non-lazy defer_tick back edge and a defer_tick_lazy back edge into the same union."""
+        r = self.r
+        if len(self.loops) > 6:
+            return False
+        c = r.choice(self.ctxs_with())
+        a = self.take(c)
+        self.loops.append(c)
+        l1 = len(self.loops) - 1
+        self.loops.append(l1)
+        l2 = len(self.loops) - 1
+        b1 = self.node("batch()", l1)
+        self.link(a, b1)
+        b2 = self.node(r.choice(["batch()", "batch_lazy()"]), l2)
+        self.link((b1, None), b2)
+        u = self.node("union()", l2)
+        self.link((b2, None), u)
+        t = self.node("tee()", l2)
+        self.link((u, None), t)
+        for op in ("defer_tick()", "defer_tick_lazy()"):
+            i = len(self.nodes) + 1
+            dn = self.node(op, l2)
+            self.link((t, None), dn)
+            f = self.node("filter(|x| *x < %d)" % i, l2)
+            self.link((dn, None), f)
+            self.link((f, None), u)
+        self.unions.append((u, l2))
+        ex = self.node("all_iterations()", l1)
+        self.link((t, None), ex)
+        self.give(l1, ex)
+        return True
 
     def finish(self):
         # close every open output
@@ -435,7 +537,7 @@ def evaluate(rows, d, what, res_list, chunks=4):
         vlib.write_ndjson(p, part + [{"e": "eof"}])
         jobs.append((p, "pt_%s_%d" % (what, i)))
     viol, drift = [], []
-    with concurrent.futures.ThreadPoolExecutor(max_workers=n) as ex:
+    with concurrent.futures.ThreadPoolExecutor(max_workers=min(n, 4)) as ex:
         for (ok, r), (p, _t) in zip(ex.map(_validate_one, jobs), jobs):
             if not ok:
                 raise vlib.ToolError("records not consumed by PartitionTrace (%s):\n%s" % (what, r.error_trace[-2500:]))
@@ -448,6 +550,85 @@ def evaluate(rows, d, what, res_list, chunks=4):
             for res in res_list:
                 res.add_tlc(r, "structure-validation:" + what)
     return viol, drift
+
+
+def _algo_one(args):
+    path, tag = args
+    return vlib.validate_trace(SD, "PartitionAlgoTrace", path, tag=tag, timeout=3000, xmx="6g")
+
+
+def model_crosscheck(rows, viol, d, tier, res):
+    """PartitionAlgo.tla (implementation-shaped model of partition_graph) is run by TLC on the flat graph of
+    the selected programs: (a) design level -- which C18/C19 rules does the MODEL's outcome break (the known
+    findings must show up here too); (b) conformance -- the model's verdict / subgraphs / order / handoffs /
+    marks against the real partitioner's (exact; differences are drift)."""
+    thorough = tier == "thorough"
+    reached = [r for r in rows if r["verdict"] in ("ok", "err", "panic")]
+    if thorough:
+        sel = reached
+    else:
+        small = [r for r in reached if r["id"].startswith(("tiny/", "extra/"))]
+        sel = [r for r in small if r["id"].startswith("extra/")] + [r for r in small if r["id"].startswith("tiny/")][::8]
+    n = 4 if thorough else 2
+    order = sorted(range(len(sel)), key=lambda i: -len(sel[i]["G1"]["nodes"]))
+    parts = [[] for _ in range(n)]
+    for j, i in enumerate(order):
+        parts[j % n].append(sel[i])
+    jobs = []
+    for i, part in enumerate(parts):
+        p = os.path.join(d, "algo_part%d.ndjson" % i)
+        vlib.write_ndjson(p, part + [{"e": "eof"}])
+        jobs.append((p, "pa_%d" % i))
+    mviol, mdrift, cnt = [], [], 0
+    with concurrent.futures.ThreadPoolExecutor(max_workers=min(n, 4)) as ex:
+        for (ok, r), (p, _t) in zip(ex.map(_algo_one, jobs), jobs):
+            if not ok:
+                raise vlib.ToolError("records not consumed by PartitionAlgoTrace:\n%s" % r.error_trace[-2500:])
+            v = vlib.printed_json(r, "MVIOL")
+            if not v:
+                raise vlib.ToolError("PartitionAlgoTrace printed no MVIOL line")
+            mviol += v[0]
+            dr = vlib.printed_json(r, "MDRIFT")
+            mdrift += dr[0] if dr else []
+            for line in r.printed:
+                m = re.match(r'^<<"MSTAT", (\d+)>>$', line)
+                if m:
+                    cnt += int(m.group(1))
+            for x in res:
+                x.add_tlc(r, "PartitionAlgo model vs relational spec and vs real partition_graph")
+    if cnt != len(sel) or cnt < 100:
+        raise vlib.ToolError("PartitionAlgo ran on %d of %d selected programs" % (cnt, len(sel)))
+    ids = {r["id"] for r in sel}
+    cg_ok = {r["id"] for r in sel if r["verdict"] != "ok" or r["codegen"] == "ok"}
+
+    def norm(pairs):
+        out = {}
+        for i, rule in pairs:
+            if i not in ids or not rule.startswith(("C18:", "C19:")):
+                continue
+            if "code-generation-panicked" in rule or "reported-cycle" in rule:
+                continue
+            if i not in cg_ok and rule.startswith("C18:") and "partitioner-panicked" not in rule:
+                continue            # as_code rejected the program: C18 is not evaluated on the real side
+            out.setdefault(i, set()).add(rule)
+        return out
+    m, c = norm(mviol), norm(viol)
+    disagree = sorted(i for i in set(m) | set(c) if m.get(i, set()) != c.get(i, set()))
+    by_rule = {}
+    for i, rules in m.items():
+        for rule in rules:
+            by_rule[rule] = by_rule.get(rule, 0) + 1
+    info = {"programs": cnt, "model_counterexamples_by_rule": by_rule,
+            "model_vs_code_exact_differences": len(mdrift),
+            "programs_where_model_and_code_break_different_rules": len(disagree)}
+    for x in res:
+        x.extra["partition_algo_model"] = info
+        for i, what in sorted(mdrift)[:10]:
+            x.drift.append({"kind": "PartitionAlgo outcome differs from partition_graph", "program": i, "what": what})
+        for i in disagree[:10]:
+            x.drift.append({"kind": "PartitionAlgo and partition_graph break different C18/C19 rules", "program": i,
+                            "model": sorted(m.get(i, [])), "code": sorted(c.get(i, []))})
+    return info
 
 
 def _san(s):
@@ -510,13 +691,16 @@ def run(tier):
     if empty and not vacuous:
         vacuous = "vacuous run: features never exercised: %s" % empty
 
-    viol, drift = evaluate(rows, d, "all", list(res.values()), chunks=8 if thorough else 6)
+    viol, drift = evaluate(rows, d, "all", list(res.values()), chunks=8 if thorough else 4)
     known = {(k["property"], k["fingerprint"]) for k in vlib.load_known().get("findings", [])}
     fresh = [v for v in viol if (v[1].split(":", 1)[0], fingerprint(v[1], next((r for r in rows if r["id"] == v[0]), {}))) not in known]
     # a run that exercised too little is a tool error -- unless the real code already misbehaved in a way
     # that is not a listed finding (then the shortfall is a symptom and the violations are reported)
     if vacuous and not fresh:
         raise vlib.ToolError(vacuous)
+
+    # implementation-shaped model of the partitioner: design check + exact conformance
+    model_crosscheck(rows, viol, d, tier, [res["C18"], res["C19"]])
 
     # canary: corrupt good records; the spec must flag each
     good = [r for r in accepted if len(r["P"]["sgs"]) >= 2 and len(r["P"]["nodes"]) > len(r["G1"]["nodes"])
